@@ -1,0 +1,11 @@
+//go:build verif
+
+package asa
+
+// Contracts for the deductive checker in /verif (comment-only file).
+
+//vc:func (*State).ApplyCommands
+//vc:  requires[C11] !isCompareRun
+
+//vc:func (*State).cmd
+//vc:  requires[C11] !isCompareRun
